@@ -25,6 +25,24 @@ PROPS = {
         ],
         trusted=STD_TRUST,
     ),
+    "C15": dict(
+        units=["list"],
+        level="proof",
+        min_obligations=100,
+        replay_family="c15",
+        explanation="cons.rs, the list constructors/traversals of value/mod.rs and value/index.rs are extracted from /repo and verified against the "
+                    "abstract view (elems, tail) of a cons chain: append/list == mk_list (functional proof through the &mut cursor with a prophecy "
+                    "invariant), to_vec/to_ref_vec/into_vec return (elems, tail) and their unreachable!() is dead, Iter/IntoIter/ListIter follow the "
+                    "documented state machines (lemma_list_iter_protocol: xs then None,t,None), is_list/is_dotted_list == tail==Null and are complementary, "
+                    "usize/str/String/&T/Value indexing == first-match specs and cannot panic. Unbounded in list length and element kinds.",
+        assumptions=[
+            "generic parameters are verified at the instantiation I=Vec<Value>, T=U=Value (conversion of other element types is From, covered by C20)",
+            "iterator adapters with closures (.all, .find_map) are replaced by their std definitions as explicit loops (rewrites listed per item)",
+            "derived Clone/PartialEq of Value have no source text: clone returns an equal value, == is an uninterpreted relation value_eq",
+            "Cons::drop, Value::vector, From<Cow<str>> are not under contract",
+        ],
+        trusted=STD_TRUST,
+    ),
 }
 
 
